@@ -22,49 +22,59 @@ theorem goValidCloseCode_conforms : CodePolicy goValidCloseCode := by
 stream — hence every truncation of every stream — the events the Go reader reports (data messages
 with type and bytes, pings, pongs, close with code and reason, protocol error, too big, incomplete,
 bad compressed data) are exactly those of the RFC 6455 §5 / RFC 7692 receiver specification with the
-three relaxations of `Quirks.go` (RSV1 tolerated on control and continuation frames, 1-byte close
-body treated as empty, 64-bit length with the top bit set reported as "too big"). -/
+one relaxation left in `Quirks.go`: a 64-bit length with the top bit set is reported as "too big". -/
 theorem reader_eq_quirk_spec (cfg : Cfg) (input : Bytes) :
     (runReader cfg input).events = decodeWith Quirks.go cfg goValidCloseCode input := by
   have h := run_eq_decodeQ cfg (fuelFor input) none { input := input } ⟨rfl, rfl, rfl⟩
   simpa [runReader, decodeWith, fuelFor] using h
 
-/-- Full statement `reader_eq_spec` (false, see the witnesses below):
+/-- Full statement `reader_eq_spec` (false, see the witness below):
 `(runReader cfg input).events = decode cfg goValidCloseCode input` for all `cfg`, `input`.
-Proved: the equality holds for every stream which the RFC decoder does not reject as a protocol
-violation; on the rejected ones the reader behaves as `reader_eq_quirk_spec` says, i.e. it rejects
-them too unless the violation is one of the three named relaxations (findings C29-1…C29-4). -/
-theorem reader_eq_spec_partial (cfg : Cfg) (input : Bytes)
+Proved, for all `cfg` and `input`: the reader's events are those of the strict RFC decoder, or the
+two lists differ only in their last element, which is "too big" for the reader where the RFC says
+"protocol error" (finding C29-4: 64-bit length with the most significant bit set; the repo's
+TestReadLimit pins ErrReadLimit for that input).  RSV1 on control/continuation frames and 1-byte
+close bodies are rejected like the RFC says since a4ffe486 and 13f4dfc8. -/
+theorem reader_eq_spec_partial (cfg : Cfg) (input : Bytes) :
+    (runReader cfg input).events = decode cfg goValidCloseCode input ∨
+    ∃ pre, (runReader cfg input).events = pre ++ [Event.tooBig] ∧
+      decode cfg goValidCloseCode input = pre ++ [Event.protoError] := by
+  rw [reader_eq_quirk_spec]
+  exact decodeQ_go_vs_rfc cfg goValidCloseCode _ none input
+
+/-- in particular: equality on every stream the RFC decoder does not reject as a protocol violation -/
+theorem reader_eq_spec_of_no_violation (cfg : Cfg) (input : Bytes)
     (h : Event.protoError ∉ decode cfg goValidCloseCode input) :
     (runReader cfg input).events = decode cfg goValidCloseCode input := by
   rw [reader_eq_quirk_spec]
   exact decodeQ_go_eq_rfc cfg goValidCloseCode _ none input h
 
-/-- the relaxed specification coincides with the RFC specification wherever the latter sees no
-protocol violation (so the relaxations are exactly the three rejected-by-RFC situations) -/
-theorem quirks_only_on_violations (cfg : Cfg) (accept : Nat → Bool) (input : Bytes)
-    (h : Event.protoError ∉ decode cfg accept input) :
-    decodeWith Quirks.go cfg accept input = decode cfg accept input :=
-  decodeQ_go_eq_rfc cfg accept _ none input h
+/-- and: every stream the RFC decoder rejects is rejected by the reader at the same place (with a
+protocol error or, in the MSB case, with "too big"); everything before that is identical -/
+theorem reader_rejects_what_rfc_rejects (cfg : Cfg) (input : Bytes) (pre : List Event)
+    (h : decode cfg goValidCloseCode input = pre ++ [Event.protoError]) :
+    (runReader cfg input).events = pre ++ [Event.protoError] ∨
+    (runReader cfg input).events = pre ++ [Event.tooBig] := by
+  rcases reader_eq_spec_partial cfg input with he | ⟨p, h1, h2⟩
+  · left; rw [he, h]
+  · right
+    rw [h] at h2
+    have := List.append_inj' h2 rfl
+    rw [h1, this.1]
 
-/-! Witnesses that the unrestricted `reader_eq_spec` is false on the real reader
-(findings C29-1, C29-2, C29-3, C29-4; each is replayed on the Go code by the check). -/
+/-! Witness that the unrestricted `reader_eq_spec` is false on the real reader (finding C29-4,
+replayed on the Go code by the check), and regression instances for the fixed findings. -/
 def deflateClient : Cfg := { server := false, deflate := true, readLimit := 0, inflatedLimit := 0, inflate := fun _ => none }
 def plainClient0 : Cfg := { server := false, deflate := false, readLimit := 0, inflatedLimit := 0, inflate := fun _ => none }
 
--- RSV1 on a pong (control frame)
-example : (runReader deflateClient [0xca, 0x01, 0x78]).events = [.pong [0x78], .incomplete] ∧
-    decode deflateClient goValidCloseCode [0xca, 0x01, 0x78] = [.protoError] := by decide
--- RSV1 on a continuation frame
-example : (runReader deflateClient [0x01, 0x01, 0x61, 0xc0, 0x01, 0x62]).events = [.msg 1 [0x61, 0x62], .incomplete] ∧
-    decode deflateClient goValidCloseCode [0x01, 0x01, 0x61, 0xc0, 0x01, 0x62] = [.protoError] := by decide
--- 1-byte close body
-example : (runReader plainClient0 [0x88, 0x01, 0xff]).events = [.close 1005 []] ∧
-    decode plainClient0 goValidCloseCode [0x88, 0x01, 0xff] = [.protoError] := by decide
 -- 64-bit length with the most significant bit set
 example : (runReader plainClient0 [0x82, 0x7f, 0x80, 0, 0, 0, 0, 0, 0, 0]).events = [.tooBig] ∧
     decode plainClient0 goValidCloseCode [0x82, 0x7f, 0x80, 0, 0, 0, 0, 0, 0, 0] = [.protoError] := by decide
-/-- non-vacuity of `reader_eq_spec_partial`: a fragmented message with an interleaved ping, then close -/
+-- fixed (C29-1, C29-2, C29-3): RSV1 on a pong, RSV1 on a continuation, 1-byte close body are protocol errors
+example : ∃ m, (runReader deflateClient [0xca, 0x01, 0x78]).result = some (.proto m) := ⟨_, rfl⟩
+example : ∃ m, (runReader deflateClient [0x01, 0x01, 0x61, 0xc0, 0x01, 0x62]).result = some (.proto m) := ⟨_, rfl⟩
+example : ∃ m, (runReader plainClient0 [0x88, 0x01, 0xff]).result = some (.proto m) := ⟨_, rfl⟩
+/-- non-vacuity: a fragmented message with an interleaved ping, then close -/
 example : Event.protoError ∉ decode plainClient0 goValidCloseCode
       [0x01, 0x01, 0x61, 0x89, 0x00, 0x80, 0x01, 0x62, 0x88, 0x02, 0x03, 0xe8] ∧
     decode plainClient0 goValidCloseCode [0x01, 0x01, 0x61, 0x89, 0x00, 0x80, 0x01, 0x62, 0x88, 0x02, 0x03, 0xe8]
@@ -80,21 +90,19 @@ theorem protocol_error_sends_1002 (cfg : Cfg) (input : Bytes) (msg : String)
     LastClose 1002 (runReader cfg input) :=
   (run_good cfg _ none { input := input } rfl rfl).1 msg h
 
-/-- Full statement (false, see the witnesses below):
+/-- Full statement (false, see the witness below):
 `(runReader cfg input).result = some .readLimit → LastClose 1009 (runReader cfg input)`.
-Proved: whenever the reader reports "read limit exceeded" and did not go through one of the two
-int64-overflow exits (64-bit length with the top bit set; accumulated message length ≥ 2^63), the
-last frame it wrote is a Close frame with status 1009 — for the wire-size limit as well as for the
-inflated-size limit. -/
+Proved: whenever the reader reports "read limit exceeded" and did not take the one remaining
+deviating exit (64-bit length with the top bit set, finding C29-4), the last frame it wrote is a
+Close frame with status 1009 — for the wire-size limit, the int64 overflow of the accumulated
+message length (fixed by 7b24129f) and the inflated-size limit. -/
 theorem too_big_sends_1009_partial (cfg : Cfg) (input : Bytes)
     (h : (runReader cfg input).result = some .readLimit)
-    (h1 : Dev.len64Msb ∉ (runReader cfg input).devs)
-    (h2 : Dev.lengthOverflow ∉ (runReader cfg input).devs) :
+    (h1 : Dev.len64Msb ∉ (runReader cfg input).devs) :
     LastClose 1009 (runReader cfg input) := by
-  rcases (run_good cfg _ none { input := input } rfl rfl).2.1 h with h | h | h
+  rcases (run_good cfg _ none { input := input } rfl rfl).2.1 h with h | h
   · exact h
   · exact absurd h h1
-  · exact absurd h h2
 
 /-- No slice or index operation of the reader can go out of range, and the read loop always ends
 with an error value (totality; "never panics"), and the fuel of the model's loop is never the
@@ -106,15 +114,17 @@ theorem reader_never_panics (cfg : Cfg) (input : Bytes) :
   refine ⟨h.2.2.1, h.2.2.2, ?_⟩
   exact run_fuel cfg (fuelFor input) none { input := input } rfl (by simp [fuelFor]; omega)
 
-/-! Witnesses: the unrestricted `too_big_sends_1009` is false on the real reader (finding C29-4,
-C29-5): "read limit exceeded" with nothing written at all. -/
+/-! Witness: the unrestricted `too_big_sends_1009` is false on the real reader (finding C29-4):
+"read limit exceeded" with nothing written at all.  The length-overflow exit (former C29-5) now
+writes the 1009 frame. -/
 def plainClient : Cfg := { server := false, deflate := false, readLimit := 0, inflatedLimit := 0, inflate := fun _ => none }
 
 example : (runReader plainClient [0x82, 0x7f, 0x80, 0, 0, 0, 0, 0, 0, 0]).result = some .readLimit ∧
     (runReader plainClient [0x82, 0x7f, 0x80, 0, 0, 0, 0, 0, 0, 0]).written = [] := by decide
 example : (runReader plainClient [0x01, 0x01, 0x61, 0x80, 0x7f, 0x7f, 0xff, 0xff, 0xff, 0xff, 0xff, 0xff, 0xff]).result
       = some .readLimit ∧
-    (runReader plainClient [0x01, 0x01, 0x61, 0x80, 0x7f, 0x7f, 0xff, 0xff, 0xff, 0xff, 0xff, 0xff, 0xff]).written = [] := by
+    (runReader plainClient [0x01, 0x01, 0x61, 0x80, 0x7f, 0x7f, 0xff, 0xff, 0xff, 0xff, 0xff, 0xff, 0xff]).written
+      = [⟨8, [3, 241]⟩] := by
   decide
 /-- non-vacuity of `too_big_sends_1009_partial` and `protocol_error_sends_1002` -/
 example : (runReader { plainClient with readLimit := 3 } [0x82, 0x04, 1, 2, 3, 4]).result = some .readLimit ∧
